@@ -205,6 +205,10 @@ def one_case(ctx: Ctx, stream: str, i: int) -> None:
         ('Polarizer.create', lambda: LinearPolarizerOperator.create(shape, jnp.float32, kind, angles=give(a1)),
          [pol_row(kind) @ rot1[t] for t in range(n)]),
         ('QURotation.create', lambda: QURotationOperator.create(shape, jnp.float32, kind, angles=give(a1)), rot1),
+        # the factories WITHOUT angles return the bare operator
+        ('HWP.create(no angles)', lambda: HWPOperator.create(shape, jnp.float32, kind), [hw for t in range(n)]),
+        ('Polarizer.create(no angles)', lambda: LinearPolarizerOperator.create(shape, jnp.float32, kind),
+         [pol_row(kind) for t in range(n)]),
     ]:
         st4, op = safe(mk)
         if st4 != 'ok':
